@@ -165,8 +165,36 @@ class ExprMixin(Core):
         return self.ev_seq(node.elts, st, lambda vs, s: self.ok(T("list", self.seq_of_terms([self.box(v) for v in vs])), s))
 
     def ev_JoinedStr(self, node, st):
-        # f-string: an opaque string (only used for messages)
-        return self.ok(T("str", z3.String(fresh_name("fstr"))), st)
+        """f-string: the embedded expressions are evaluated (their safety obligations count); the text is exact when
+        every part is a literal, a str, or an int/bool-free integer formatted without conversion or format spec
+        (str(int) = the uninterpreted int_str shared with the specs), and an opaque string otherwise (messages)"""
+        parts = [v for v in node.values if isinstance(v, ast.FormattedValue)]
+
+        def k(vals, s):
+            it = iter(vals)
+            pieces, exact = [], True
+            for v in node.values:
+                if isinstance(v, ast.Constant) and isinstance(v.value, str):
+                    pieces.append(z3.StringVal(v.value))
+                    continue
+                val = next(it)
+                if v.conversion != -1 or v.format_spec is not None:
+                    exact = False
+                elif isinstance(val, T) and val.kind == "str":
+                    pieces.append(val.t)
+                elif isinstance(val, T) and val.kind == "int":
+                    pieces.append(self.uf("int_str", z3.IntSort(), z3.StringSort())(val.t))
+                elif isinstance(val, T) and val.kind == "V" and self.known_con(val.t) == "VInt":
+                    pieces.append(self.uf("int_str", z3.IntSort(), z3.StringSort())(self.U.acc("i", val.t)))
+                elif isinstance(val, T) and val.kind == "V" and self.known_con(val.t) == "VStr":
+                    pieces.append(self.U.acc("s", val.t))
+                else:
+                    exact = False
+            if not exact or not pieces:
+                return self.ok(T("str", z3.String(fresh_name("fstr")) if not exact else z3.StringVal("")), s)
+            return self.ok(T("str", pieces[0] if len(pieces) == 1 else z3.Concat(*pieces)), s)
+
+        return self.ev_seq([p.value for p in parts], st, k)
 
     def ev_IfExp(self, node, st):
         def k(c, s):
